@@ -27,6 +27,7 @@ def normal_exit_paths(func_node, max_paths=4000, keep=()):
   for path in g.enumerate_paths(g.entry, lambda n: n is g.exit, cfgmod.no_exc, max_paths=max_paths, back_limit=0):
     pf = pathcond.PathFacts(path, rd, keep=keep)
     if pf.feasible:
+      pf.cfg = g
       out.append(pf)
   if len(out) >= max_paths:
     raise Undecided('more than %d normal-exit paths' % max_paths)
@@ -76,6 +77,21 @@ def opaque_calls(pf):
   return out
 
 
+def loop_caveats(pf):
+  """Loops on the path whose body can reject (contains a raise): the path shows at most one pass through the loop (or
+  none), so it does not witness that the remaining iterations let the input through."""
+  g = getattr(pf, 'cfg', None)
+  out = []
+  if g is None:
+    return out
+  for n, _lab in pf.path:
+    if n.kind in ('for', 'while'):
+      body = g.loop_body_nodes(n)
+      if any(m.kind == 'raisestmt' for m in body):
+        out.append('the loop at line %s checks one element per pass; the path follows at most one pass' % getattr(n, 'lineno', '?'))
+  return out
+
+
 def decide_states(paths, classify, states):
   """states: list of (label, dict key->bool). Returns dict label -> Outcome (worst over the states sharing the label)."""
   rank = {'rejected': 0, 'unknown': 1, 'accepted': 2}
@@ -104,6 +120,8 @@ def decide_states(paths, classify, states):
           continue
         if not unknown:
           unknown = ['call %s may reject' % c_ for c_ in opaque_calls(pf)]
+        if not unknown:
+          unknown = loop_caveats(pf)
         o = Outcome('unknown', pf.text()[:200], unknown) if unknown else Outcome('accepted', pf.text()[:200] or 'the path without any test')
         if rank[o.status] > rank[best.status]:
           best = o
